@@ -22,7 +22,7 @@ Definition big : Z := 1048576.
 
 (** the two platform parameters are bracketed: the model must give the same answer for a small and a
     large stack depth / spin budget, otherwise the case is outside what the model pins down *)
-Definition E_lo : env := canon_env 40 65536.
+Definition E_lo : env := canon_env 200 65536.
 Definition E_hi : env := canon_env 3000 17179869184.
 
 Definition code_of {A} (o : outcome A) : option Z :=
